@@ -393,3 +393,92 @@ func sliceContains(v ssa.Value, pred func(ssa.Value) bool) bool {
 	}
 	return walk(v, 0)
 }
+
+func init() {
+	register(&Rule{ID: "SNAP.apply", Min: 5, Text: "receiving a snapshot: InternalDocument.applySnapshot replaces the root with crdt.NewRoot of the decoded object, replaces the presences with the decoded ones, and adopts the clocks with SetClocks(vector.MaxLamport(), vector) of the pack's vector; on the server the snapshot pull encodes the rebuilt document (after applying the request's own changes) and ships the document's own version vector with it",
+		Run: func(x *Ctx) {
+			fn := x.fn(docPkg + ".(*InternalDocument).applySnapshot")
+			if fn == nil {
+				return
+			}
+			k := "func=" + prog.FnName(fn)
+			b2s := x.P.FnObj(convPkg + ".BytesToSnapshot")
+			newRoot := x.P.FnObj(crdtPkg + ".NewRoot")
+			setClocks := x.P.FnObj(changePkg + ".ID.SetClocks")
+			maxLam := x.P.FnObj(timePkg + ".VersionVector.MaxLamport")
+			rootF := x.P.Field(docPkg + ".InternalDocument.root")
+			presF := x.P.Field(docPkg + ".InternalDocument.presences")
+			idF := x.P.Field(docPkg + ".InternalDocument.changeID")
+			okRoot := false
+			for _, st := range storesTo(fn, rootF) {
+				if c, ok := prog.Strip(st.Val).(*ssa.Call); ok && sameFunc(prog.CallObj(c), newRoot) && flowsFromCallTo(c.Call.Args[0], b2s) {
+					okRoot = true
+				}
+			}
+			x.check(okRoot, k+" root=NewRoot(decoded)", x.fpos(fn), "the root is rebuilt from the snapshot", "applySnapshot no longer installs crdt.NewRoot of the decoded snapshot")
+			okPres := false
+			for _, st := range storesTo(fn, presF) {
+				if flowsFromCallTo(st.Val, b2s) {
+					okPres = true
+				}
+			}
+			x.check(okPres, k+" presences=decoded", x.fpos(fn), "presences come from the snapshot", "applySnapshot no longer installs the snapshot's presences")
+			var vec *ssa.Parameter
+			for _, pm := range fn.Params {
+				if n, ok := pm.Type().(*types.Named); ok && n.Obj().Name() == "VersionVector" {
+					vec = pm
+				}
+			}
+			okClk := false
+			for _, st := range storesTo(fn, idF) {
+				c, ok := prog.Strip(st.Val).(*ssa.Call)
+				if !ok || !sameFunc(prog.CallObj(c), setClocks) || vec == nil {
+					continue
+				}
+				ml, isCall := prog.Strip(c.Call.Args[1]).(*ssa.Call)
+				if isCall && sameFunc(prog.CallObj(ml), maxLam) && prog.Strip(ml.Call.Args[0]) == ssa.Value(vec) && prog.Strip(c.Call.Args[2]) == ssa.Value(vec) {
+					okClk = true
+				}
+			}
+			x.check(okClk, k+" clocks=SetClocks(vector.MaxLamport(),vector)", x.fpos(fn), "the clocks are adopted from the snapshot's vector", "applySnapshot no longer adopts the snapshot vector and its maximum lamport")
+			// server side: the function in packs that calls SnapshotToBytes on the PushPull path
+			p := x.pipe()
+			if !p.ok {
+				return
+			}
+			s2b := x.P.FnObj(convPkg + ".SnapshotToBytes")
+			build := x.P.FnObj("server/packs.BuildInternalDocForServerSeq")
+			vvM := x.P.FnObj(docPkg + ".(*InternalDocument).VersionVector")
+			rootObj := x.P.FnObj(docPkg + ".(*InternalDocument).RootObject")
+			spVV := x.P.Field("server/packs.ServerPack.VersionVector")
+			for _, c := range callsTo(x.P.FuncsIn("server/packs"), s2b) {
+				host := c.Parent()
+				if !x.reachableFrom(p.PushPull, host) {
+					continue
+				}
+				hk := "func=" + prog.FnName(host)
+				arg := c.Common().Args[0]
+				okDoc := false
+				if rc, ok := prog.Strip(arg).(*ssa.Call); ok && sameFunc(prog.CallObj(rc), rootObj) && flowsFromCallTo(rc.Call.Args[0], build) {
+					okDoc = true
+				}
+				x.check(okDoc, hk+" snapshot-of-rebuilt-document", x.pos(c), "the snapshot encodes the document rebuilt for the pre-push head", "the snapshot does not encode the document built by BuildInternalDocForServerSeq")
+				okVV := false
+				for _, st := range storesTo(host, spVV) {
+					if vc, ok := prog.Strip(st.Val).(*ssa.Call); ok && sameFunc(prog.CallObj(vc), vvM) && flowsFromCallTo(vc.Call.Args[0], build) {
+						okVV = true
+					}
+				}
+				x.check(okVV, hk+" pack.VersionVector=document's", x.pos(c), "the snapshot ships the document's own vector", "the snapshot pack does not carry the rebuilt document's version vector")
+				// the request's own changes are applied before encoding
+				apply := x.P.FnObj(docPkg + ".(*InternalDocument).ApplyChangePack")
+				ok := false
+				for _, a := range callsToIn(host, apply) {
+					if prog.MayPrecede(a, c) && !prog.MayPrecede(c, a) {
+						ok = true
+					}
+				}
+				x.check(ok, hk+" own-changes-applied-before-encoding", x.pos(c), "pushed changes are part of the snapshot", "the request's own changes are no longer applied before the snapshot is encoded")
+			}
+		}})
+}
